@@ -13,7 +13,7 @@
    their sequence of lines without leading whitespace.  sig a = sig b implies
    sigc a = sigc b. *)
 From Coq Require Import List NArith ZArith Bool Arith Lia.
-From YV Require Import Fmt.Tokens Gen.FmtCats Fmt.Processor Fmt.ProcessorProofs Fmt.Stages.
+From YV Require Import Fmt.Tokens Gen.FmtCats Gen.FmtComments Fmt.Processor Fmt.ProcessorProofs Fmt.Stages.
 Import ListNotations.
 
 (* ------------------------------------------------------------------ sig / sigc *)
@@ -246,9 +246,25 @@ Proof.
     + inversion H; reflexivity.
 Qed.
 
+(* the loop runs out of characters only on a line made of spaces and tabs *)
+Lemma cstart_none_blank : forall line i indent tab,
+  cstart line i indent tab = None -> norm_line line = [].
+Proof.
+  induction line as [|c l IH]; intros i indent tab H; [reflexivity|]. cbn [cstart] in H.
+  destruct (Nat.leb indent i); [discriminate|].
+  destruct (N.eqb c 32) eqn:E1.
+  - destruct (cstart l (S i) indent tab) eqn:C; [discriminate|].
+    cbn [norm_line]. unfold is_ws_byte. rewrite E1. cbn [orb]. eapply IH; exact C.
+  - destruct (N.eqb c 9) eqn:E2; [|discriminate].
+    destruct (cstart l (i + tab) indent tab) eqn:C; [discriminate|].
+    cbn [norm_line]. unfold is_ws_byte. rewrite E1, E2. cbn [orb]. eapply IH; exact C.
+Qed.
+
 Lemma strip_line_norm : forall indent tab line, norm_line (strip_line indent tab line) = norm_line line.
 Proof.
-  intros. unfold strip_line. destruct (cstart line 0 indent tab) eqn:C; [eapply cstart_norm; exact C|reflexivity].
+  intros. unfold strip_line. destruct (cstart line 0 indent tab) eqn:C; [eapply cstart_norm; exact C|].
+  destruct blank_comment_lines_stripped; [|reflexivity].
+  rewrite (cstart_none_blank _ _ _ _ C). reflexivity.
 Qed.
 
 Lemma split_atoms : forall c indent tab, comment_atoms (split_comment_lines c indent tab) = comment_atoms (lines_of c).
